@@ -542,6 +542,72 @@ fn run_dtype_rt(a: &Args) -> Args {
     }
 }
 
+// ------------------------------------------------------------------ interval casts
+/// c13.ivcast: [kind, unit] [safe] [validity] [g1] [g2] [g3] [prefix, force_null_buffer]
+///   kind 0 Interval(MonthDayNano) -> Duration(unit): g1 g2 g3 = months days nanos -> [validity] [values]
+///   kind 1 Duration(unit) -> Interval(MonthDayNano): g1 = values            -> [validity] [months] [days] [nanos]
+///   kind 2 Interval(YearMonth) -> Interval(MonthDayNano): g1 = months        -> same
+///   kind 3 Interval(DayTime) -> Interval(MonthDayNano): g1 g2 = days millis  -> same
+///   kind 4 Int32 -> Interval(YearMonth): g1 = values                         -> [validity] [values]
+/// The column is embedded behind `prefix` extra slots (copies of its own slots, alternating validity) and sliced out.
+fn run_ivcast(a: &Args) -> Args {
+    use arrow_buffer::{IntervalDayTime, IntervalMonthDayNano};
+    let ku = to_i64s(&a[0]);
+    let (kind, u) = (ku[0], ku[1] as u8);
+    let safe = to_i64(&a[1]) != 0;
+    let valid0 = to_bools(&a[2]);
+    let n = valid0.len();
+    let lay: Vec<i64> = a.get(6).map(to_i64s).unwrap_or_default();
+    let pre = lay.first().copied().unwrap_or(0) as usize;
+    let force = lay.get(1).copied().unwrap_or(0) != 0;
+    // index map of the physical array: prefix slots reuse the column's slots
+    let idx: Vec<usize> = (0..pre).map(|i| if n == 0 { 0 } else { i % n }).chain(0..n).collect();
+    let valid: Vec<bool> = (0..pre).map(|i| n != 0 && i % 2 == 0).chain(valid0.iter().cloned()).collect();
+    let gi = |g: usize, i: usize| -> i64 { if n == 0 { 0 } else { i64::try_from(&a[g][i]).expect("i64") } };
+    let nb = nulls_of(&valid, force);
+    let arr: ArrayRef = match kind {
+        0 => Arc::new(PrimitiveArray::<IntervalMonthDayNanoType>::new(
+            ScalarBuffer::from(idx.iter().map(|&i| IntervalMonthDayNano::new(gi(3, i) as i32, gi(4, i) as i32, gi(5, i))).collect::<Vec<_>>()), nb)),
+        1 => {
+            let vals: Vec<i64> = idx.iter().map(|&i| gi(3, i)).collect();
+            let dt = DataType::Duration(unit(u));
+            match u {
+                0 => Arc::new(PrimitiveArray::<DurationSecondType>::new(ScalarBuffer::from(vals), nb).with_data_type(dt)) as ArrayRef,
+                1 => Arc::new(PrimitiveArray::<DurationMillisecondType>::new(ScalarBuffer::from(vals), nb).with_data_type(dt)),
+                2 => Arc::new(PrimitiveArray::<DurationMicrosecondType>::new(ScalarBuffer::from(vals), nb).with_data_type(dt)),
+                _ => Arc::new(PrimitiveArray::<DurationNanosecondType>::new(ScalarBuffer::from(vals), nb).with_data_type(dt)),
+            }
+        }
+        2 => Arc::new(PrimitiveArray::<IntervalYearMonthType>::new(ScalarBuffer::from(idx.iter().map(|&i| gi(3, i) as i32).collect::<Vec<_>>()), nb)),
+        3 => Arc::new(PrimitiveArray::<IntervalDayTimeType>::new(
+            ScalarBuffer::from(idx.iter().map(|&i| IntervalDayTime::new(gi(3, i) as i32, gi(4, i) as i32)).collect::<Vec<_>>()), nb)),
+        _ => Arc::new(PrimitiveArray::<Int32Type>::new(ScalarBuffer::from(idx.iter().map(|&i| gi(3, i) as i32).collect::<Vec<_>>()), nb)),
+    };
+    let arr = if pre > 0 { arr.slice(pre, n) } else { arr };
+    let want = match kind {
+        0 => DataType::Duration(unit(u)),
+        4 => DataType::Interval(IntervalUnit::YearMonth),
+        _ => DataType::Interval(IntervalUnit::MonthDayNano),
+    };
+    let r = match cast_with_options(&arr, &want, &opts(safe)) { Ok(r) => r, Err(e) => return err_kind(&e) };
+    if r.data_type() != &want { return vec![gs(&[-2i64, 1])]; }
+    if r.len() != n { return vec![gs(&[-2i64, 2])]; }
+    if r.to_data().validate_full().is_err() { return vec![gs(&[-2i64, 3])]; }
+    let v: Vec<bool> = (0..n).map(|i| r.is_valid(i)).collect();
+    match kind {
+        0 => out_col(&r, &want, n),
+        4 => {
+            let p = r.as_any().downcast_ref::<PrimitiveArray<IntervalYearMonthType>>().expect("ym");
+            vec![gbools(v.clone()), (0..n).map(|i| if v[i] { BigInt::from(p.value(i)) } else { BigInt::zero() }).collect()]
+        }
+        _ => {
+            let p = r.as_any().downcast_ref::<PrimitiveArray<IntervalMonthDayNanoType>>().expect("mdn");
+            let f = |sel: fn(&IntervalMonthDayNano) -> i64| -> Group { (0..n).map(|i| if v[i] { BigInt::from(sel(&p.value(i))) } else { BigInt::zero() }).collect() };
+            vec![gbools(v.clone()), f(|x| x.months as i64), f(|x| x.days as i64), f(|x| x.nanoseconds)]
+        }
+    }
+}
+
 pub fn run(op: &str, a: &Args) -> Option<Args> {
     Some(match op {
         "c13.cast" | "c13.cast_m" => run_cast(a),
@@ -553,6 +619,7 @@ pub fn run(op: &str, a: &Args) -> Option<Args> {
         "c13.float_rt" => run_float_rt(a),
         "c13.cancast" => run_cancast(a),
         "c13.dtype_rt" => run_dtype_rt(a),
+        "c13.ivcast" => run_ivcast(a),
         _ => return None,
     })
 }
@@ -1128,10 +1195,100 @@ fn gen_dtype(thorough: bool, r: &mut Rng, emit: &mut dyn FnMut(Case)) {
     }
 }
 
+/// Interval(MonthDayNano) <-> Duration(unit), YearMonth / DayTime -> MonthDayNano, Int32 -> YearMonth, both modes.
+/// kind 0 is driven through every combination of {months, days, nanos} x {zero, positive, negative}: one valid value
+/// per column (so that strict mode is decided by that value alone), then mixed columns whose null slots carry
+/// non-representable garbage (months / days != 0 under a null must not fail the strict cast).
+fn gen_interval(thorough: bool, r: &mut Rng, emit: &mut dyn FnMut(Case)) {
+    const MODELS: [&str; 2] = ["c13.ivcast", "c13.ivcast.spec"];
+    let lay = |r: &mut Rng, k: usize| -> Group { match k % 3 { 0 => gs(&[0i64, 0]), 1 => gs(&[r.range(1, 9), 0]), _ => gs(&[0i64, 1]) } };
+    let cls = |x: i64| if x == 0 { 'z' } else if x > 0 { 'p' } else { 'n' };
+    let mut k = 0usize;
+    for u in 0..4u8 {
+        let scale: i64 = [1_000_000_000, 1_000_000, 1_000, 1][u as usize];
+        let parts: [i64; 3] = [0, 1 + r.range(0, 40), -1 - r.range(0, 40)];
+        let nanos: Vec<i64> = vec![0, 1, -1, scale - 1, scale, -scale - 1, 5_000_000_000, -5_000_000_001, 5 * scale + scale / 2 + 1,
+                                   i64::MAX, i64::MIN, i64::MIN + 1, r.next() as i64, -(r.next() as i64 >> 1)];
+        for &m in &parts { for &d in &parts { for (j, &ns) in nanos.iter().enumerate() {
+            // the calendar-free rows see every nanosecond value, the others a rotating subset
+            if !thorough && (m != 0 || d != 0) && j % 3 != (k % 3) { k += 1; continue; }
+            for safe in 0..2i64 {
+                let args: Args = vec![gs(&[0i64, u as i64]), g(safe), gbools([true]), g(m), g(d), g(ns), lay(r, k)];
+                emit(Case::new("c13.ivcast", args, &MODELS, format!("ivcast/mdn>dur{u}/s{safe}/m{}d{}n{}", cls(m), cls(d), cls(ns))));
+            }
+            k += 1;
+        } } }
+        // extreme calendar parts
+        for (m, d) in [(i32::MAX as i64, 0i64), (i32::MIN as i64, 0), (0, i32::MAX as i64), (0, i32::MIN as i64), (i32::MIN as i64, i32::MAX as i64)] {
+            for safe in 0..2i64 {
+                let args: Args = vec![gs(&[0i64, u as i64]), g(safe), gbools([true]), g(m), g(d), g(7 * scale + 3), lay(r, k)];
+                emit(Case::new("c13.ivcast", args, &MODELS, format!("ivcast/mdn>dur{u}/s{safe}/extreme")));
+            }
+            k += 1;
+        }
+        // mixed columns: bad = how many VALID rows carry a calendar part (0: strict must succeed although nulls hold garbage)
+        for bad in [0usize, 0, 1, 1, 3] {
+            let len = [1usize, 7, 8, 9, 33, 64, 65][r.below(7)];
+            let mut valid = Vec::new(); let (mut ms, mut ds, mut nss) = (Vec::new(), Vec::new(), Vec::new());
+            for _ in 0..len {
+                let null = r.chance(1, 3);
+                valid.push(!null);
+                if null { ms.push(r.range(-5, 5)); ds.push(r.range(-5, 5)); } else { ms.push(0); ds.push(0); }
+                nss.push(if r.chance(1, 4) { *r.pick(&nanos) } else { r.range(-10, 10) * scale + r.range(-3, 3) });
+            }
+            for _ in 0..bad {
+                let i = r.below(len); valid[i] = true;
+                match r.below(3) { 0 => { ms[i] = 1 + r.range(0, 3); ds[i] = 0; } 1 => { ms[i] = 0; ds[i] = -1 - r.range(0, 3); } _ => { ms[i] = -2; ds[i] = 9; } }
+            }
+            for safe in 0..2i64 {
+                let args: Args = vec![gs(&[0i64, u as i64]), g(safe), gbools(valid.iter().cloned()), gs(&ms), gs(&ds), gs(&nss), lay(r, k)];
+                emit(Case::new("c13.ivcast", args, &MODELS, format!("ivcast/mdn>dur{u}/s{safe}/mixed{}", bad.min(2))));
+            }
+            k += 1;
+        }
+        // Duration(unit) -> MonthDayNano: the overflow boundary of value * scale
+        let lim = i64::MAX / scale;
+        let mut vals: Vec<i64> = vec![0, 1, -1, lim, lim + if scale > 1 { 1 } else { 0 }, -lim, -lim - 1, if scale > 1 { -lim - 2 } else { i64::MIN }, i64::MAX, i64::MIN, 86_400, -3_600_000];
+        for _ in 0..6 { vals.push(r.next() as i64 >> r.below(40)); }
+        for &v in &vals { for safe in 0..2i64 {
+            let args: Args = vec![gs(&[1i64, u as i64]), g(safe), gbools([true]), g(v), vec![], vec![], lay(r, k)];
+            emit(Case::new("c13.ivcast", args, &MODELS, format!("ivcast/dur{u}>mdn/s{safe}/{}", if (v as i128 * scale as i128).abs() > i64::MAX as i128 { "over" } else { "fit" })));
+        } k += 1; }
+        for fit_only in [true, false] {
+            let col: Vec<i64> = vals.iter().cloned().filter(|v| !fit_only || (*v as i128 * scale as i128 >= i64::MIN as i128 && *v as i128 * scale as i128 <= i64::MAX as i128)).collect();
+            // overflowing garbage under the nulls of the all-fit column
+            let valid: Vec<bool> = col.iter().map(|_| !r.chance(1, 4)).collect();
+            let raw: Vec<i64> = col.iter().zip(valid.iter()).map(|(v, b)| if *b { *v } else { i64::MAX - (*v & 0xFF) }).collect();
+            for safe in 0..2i64 {
+                let args: Args = vec![gs(&[1i64, u as i64]), g(safe), gbools(valid.iter().cloned()), gs(&raw), vec![], vec![], lay(r, k)];
+                emit(Case::new("c13.ivcast", args, &MODELS, format!("ivcast/dur{u}>mdn/s{safe}/col{}", fit_only as u8)));
+            }
+            k += 1;
+        }
+    }
+    // YearMonth / DayTime -> MonthDayNano, Int32 -> YearMonth
+    let i32s: Vec<i64> = { let mut v: Vec<i64> = vec![0, 1, -1, 12, -13, i32::MAX as i64, i32::MIN as i64, 2147, -2148, 2_147_483, -2_147_484]; for _ in 0..8 { v.push(r.next() as i32 as i64); } v };
+    for kind in [2i64, 4] { for safe in 0..2i64 { for rep in 0..2 {
+        let valid: Vec<bool> = i32s.iter().map(|_| rep == 0 || !r.chance(1, 4)).collect();
+        let args: Args = vec![gs(&[kind, 0]), g(safe), gbools(valid), gs(&i32s), vec![], vec![], lay(r, k)];
+        emit(Case::new("c13.ivcast", args, &MODELS, format!("ivcast/k{kind}/s{safe}")));
+        k += 1;
+    } } }
+    for safe in 0..2i64 { for rep in 0..3 {
+        let mut days = i32s.clone(); let mut ms: Vec<i64> = i32s.iter().rev().cloned().collect();
+        if rep == 2 { days = days.iter().map(|_| r.range(-400_000, 400_000)).collect(); ms = ms.iter().map(|_| r.range(-86_400_000, 86_400_000)).collect(); }
+        let valid: Vec<bool> = days.iter().map(|_| rep == 0 || !r.chance(1, 4)).collect();
+        let args: Args = vec![gs(&[3i64, 0]), g(safe), gbools(valid), gs(&days), gs(&ms), vec![], lay(r, k)];
+        emit(Case::new("c13.ivcast", args, &MODELS, format!("ivcast/k3/s{safe}")));
+        k += 1;
+    } }
+}
+
 pub fn generate(tier: &str, r: &mut Rng, emit: &mut dyn FnMut(Case)) {
     let thorough = tier == "thorough";
     gen_values(thorough, r, emit);
     gen_inverse(thorough, r, emit);
+    gen_interval(thorough, r, emit);
     gen_text(thorough, r, emit);
     gen_cancast(thorough, r, emit);
     gen_dtype(thorough, r, emit);
